@@ -92,9 +92,18 @@ GenPositionStartpos == SetGame(StartGame)
 GenPositionFen == SetGame([sp |-> FALSE, start |-> RandomElement(SeedPos \cup {board}), hm |-> RandomElement(HmSet),
                            fm |-> RandomElement(FmSet), ms |-> <<>>])
 \* extend the current game by up to k random legal moves (as a GUI re-sends the growing list)
+\* Half of the moves of a generated game are drawn from the moves that ARE special or only LOOK special in their text or on
+\* the board: anything arriving on the en-passant square (the capture itself, and a piece that merely lands there), anything
+\* played from e1 / e8 to the c or g file (castling, and a rook or queen playing e1g1), promotions, and double pushes (they
+\* create the en-passant squares).  A handler that classifies moves from their text or from a board pattern is wrong exactly there.
+Tricky(p) == {m \in Legal(p) : \/ m.to = p.ep
+                               \/ (m.from \in {4, 60} /\ m.to \in {2, 6, 58, 62})
+                               \/ IsPromotion(m)
+                               \/ (Kind(p.bd[m.from]) = P /\ (m.to - m.from = 16 \/ m.from - m.to = 16))}
+PickMove(p) == LET t == Tricky(p) IN IF t # {} /\ RandomElement({TRUE, FALSE}) THEN RandomElement(t) ELSE RandomElement(Legal(p))
 RECURSIVE Extend(_, _, _)
 Extend(p, ms, k) == IF k = 0 \/ Legal(p) = {} THEN ms
-                    ELSE LET m == RandomElement(Legal(p)) IN Extend(Apply(p, m), Append(ms, m), k - 1)
+                    ELSE LET m == PickMove(p) IN Extend(Apply(p, m), Append(ms, m), k - 1)
 GenPositionExtend == LET k == RandomElement(IF Profile = "position" THEN {1, 2, 3, 8, 20} ELSE {1, 2, 3})
                      IN SetGame([game EXCEPT !.ms = Extend(board, game.ms, k)])
 \* prefer a move that brings back a position already in the game (repetition histories)
